@@ -45,6 +45,8 @@ FORMULAS = {
     'exp_huge': '=1e5000+1', 'long_sum': '=' + '+'.join(['B1'] * 1500), 'sumif_wholecol_target': '=SUMIF(B1:B2,">1",C:C)', 'column_4letters': '=COLUMN(ZZZZ1)',
     # digits that are not ASCII digits (Arabic-Indic three): inside a criterion text and as a number literal
     'crit_unicode_digit': '=COUNTIFS(B1:B2,">\u0663")', 'unicode_digit_literal': '=\u0663+1',
+    # a flat chain of 220 comparisons (each one wraps the ones before it); a row number of 5000 digits
+    'cmp_chain_220': '=' + '='.join(['1'] * 220), 'row_5000_digits': '=A' + '9' * 5000 + '+1',
     'crit_leading_zero': '=SUMIF(B1:B2,">007",C1:C2)', 'crit_huge': '=SUMIF(B1:B2,">1e999",C1:C2)',
     'col_beyond_xfd': '=XFE1+1', 'row_huge': '=A99999999+1', 'brackets8': '=((((((((B1))))))))+1',
 }
